@@ -51,7 +51,11 @@ pub fn property() -> Property {
            take_instance with This / Next and present, absent or unknown keys, the four iterators; \
            History none / KeepLast(1..4) / KeepAll (+- max_samples_per_instance); reliable or \
            best-effort. Non-trivial = (>= 2 instances or a dispose/rebirth) and >= 2 access calls \
-           with an arrival in between. Distinct = distinct decoded histories.",
+           with an arrival in between. Distinct = distinct decoded histories. Scenario 1: the \
+           no_key DataReader (read / take / *_next_sample / the four iterators) and a with_key \
+           DataReader receive the same values of 1-3 writers on one instance and must answer every \
+           call alike (values, identities, states, counts); non-trivial = >= 2 access calls with \
+           an arrival in between and a non-empty result.",
     assumptions: &[
       "sample_rank / generation_rank / absolute_generation_rank are not part of the property and are not asserted",
       "view state is asserted on the most recent sample of each instance in a result, and only where the two defensible readings of the DDS text agree (per-instance flag cleared by any access and set by rebirth, vs generation of the last accessed sample); disagreements are counted under label view-ambiguous",
@@ -66,6 +70,13 @@ pub fn property() -> Property {
       quick: 6_000,
       thorough: 8_000_000,
       max_len: 400,
+      max_threads: 0,
+    }, Scenario {
+      id: 1,
+      name: "no_key DataReader vs the with_key DataReader on the same single-instance history (differential)",
+      quick: 3_000,
+      thorough: 2_000_000,
+      max_len: 300,
       max_threads: 0,
     }],
     run,
@@ -124,7 +135,10 @@ fn value_bytes(key: u8, w: usize, sn: i64) -> Vec<u8> {
   vec![key, w as u8, sn as u8, (sn >> 8) as u8, 0xEE, key ^ 0x5a]
 }
 
-pub fn run(_scenario: u32, choices: &[u8], _strict: bool) -> Outcome {
+pub fn run(scenario: u32, choices: &[u8], _strict: bool) -> Outcome {
+  if scenario == 1 {
+    return super::c08_nokey::run(choices);
+  }
   let mut c = Choices::new(choices);
   let mut o = Outcome::new();
   let _guard = CaseGuard::new();
